@@ -11,6 +11,7 @@ Definition out_eqb (a b : out) : bool :=
   | ORead d e, ORead d' e' => bytes_eqb d d' && Bool.eqb e e'
   | ON n, ON n' => n =? n'
   | OBytes d, OBytes d' => bytes_eqb d d'
+  | OCopy d, OCopy d' => bytes_eqb d d'
   | _, _ => false
   end.
 
